@@ -56,6 +56,10 @@ struct Cfg {
     kills: u32,
     adds: u32,
     naks: u32,
+    /// budget of `drop:X` steps: the USE on pool connection X is never answered (short connection timeout configured)
+    drops: u32,
+    /// node 1 owns no tokens (coordinator-only); requests are spread over ALL known nodes by a custom policy
+    zero_token: bool,
     max_steps: usize,
 }
 impl Cfg {
@@ -102,7 +106,7 @@ impl Cfg {
         ["add", "up", "enable", "rerack"][self.topo as usize]
     }
     fn json(&self) -> Value {
-        json!({"pool": self.pool, "calls": self.calls, "sharded": self.sharded, "variant": self.variant, "topo": self.topo, "kills": self.kills, "adds": self.adds, "naks": self.naks, "max_steps": self.max_steps})
+        json!({"pool": self.pool, "calls": self.calls, "sharded": self.sharded, "variant": self.variant, "topo": self.topo, "kills": self.kills, "adds": self.adds, "naks": self.naks, "drops": self.drops, "zero_token": self.zero_token, "max_steps": self.max_steps})
     }
     fn from_json(v: &Value) -> Cfg {
         Cfg {
@@ -114,6 +118,8 @@ impl Cfg {
             kills: v["kills"].as_u64().unwrap_or(1) as u32,
             adds: v["adds"].as_u64().unwrap_or(1) as u32,
             naks: v["naks"].as_u64().unwrap_or(0) as u32,
+            drops: v["drops"].as_u64().unwrap_or(0) as u32,
+            zero_token: v["zero_token"].as_bool().unwrap_or(false),
             max_steps: v["max_steps"].as_u64().unwrap_or(14) as usize,
         }
     }
@@ -139,6 +145,8 @@ struct MConn {
     accept_parked: Option<u64>,
     /// accepted connection let through: its STARTUP has yet to arrive
     hs_expected: bool,
+    /// the USE of call k on this connection will never be answered
+    dropped: Option<usize>,
 }
 impl MConn {
     fn name(&self) -> String {
@@ -205,6 +213,7 @@ struct World {
     kills_left: u32,
     adds_left: u32,
     naks_left: u32,
+    drops_left: u32,
     reqs: Vec<ReqRec>,
     next_req: u64,
     stats: RunStats,
@@ -217,7 +226,7 @@ fn stuck(e: String) -> Fail {
 impl World {
     async fn setup(cfg: Cfg) -> Result<World, Fail> {
         let mut b = MockCluster::builder().node(NodeSpec::new("dc1", "r1", vec![-4_000_000_000_000_000_000, 2_000_000_000_000_000_000]));
-        let n1 = NodeSpec::new("dc1", "r2", vec![-1_000_000_000_000_000_000, 5_000_000_000_000_000_000]);
+        let n1 = NodeSpec::new("dc1", "r2", if cfg.zero_token { vec![] } else { vec![-1_000_000_000_000_000_000, 5_000_000_000_000_000_000] });
         b = b.node(if cfg.sharded { n1.scylla(2, 12) } else { n1 });
         for k in ["ks_one", "ks_two", "MyKs", "myks"] {
             b = b.keyspace(KeyspaceSpec::simple(k, 1));
@@ -231,7 +240,14 @@ impl World {
             .known_node(cluster.contact_point(0))
             .host_filter(Arc::new(FlipFilter { host: cluster.host_id(1), open: filter_open.clone() })).pool_size(PoolSize::PerShard(NonZeroUsize::new(cfg.pool).unwrap()))
             // the pool bounds the USE fan-out by the connection timeout (default 5 s): parked answers must not trip it
-            .connection_timeout(Duration::from_secs(300));
+            // (the `drop` configurations want exactly that to happen, soon)
+            .connection_timeout(if cfg.drops > 0 { Duration::from_millis(700) } else { Duration::from_secs(300) });
+        let sb = if cfg.zero_token {
+            let profile = scylla::client::execution_profile::ExecutionProfile::builder().load_balancing_policy(Arc::new(AllNodes::default())).build();
+            sb.default_execution_profile_handle(profile.into_handle())
+        } else {
+            sb
+        };
         let session = Arc::new(sb.build().await.map_err(|e| stuck(format!("session did not come up: {e}")))?);
         let targets = vec![cfg.pool, if cfg.sharded { 2 * cfg.pool } else { cfg.pool }, cfg.pool];
         let known = vec![true, cfg.topo != 2, false];
@@ -262,7 +278,7 @@ impl World {
         infos.sort_by_key(|c| (c.node, c.id));
         for c in infos.iter().filter(|c| c.ready && c.registered.is_empty()) {
             let o = ords.entry(c.node).or_insert(0);
-            conns.push(MConn { id: c.id, node: c.node, ord: *o, alive: true, hs_parked: None, use_parked: None, pooled: true, needs_sync: true, last_use_seen: None, acked: None, nak: None, retiring: false, accept_parked: None, hs_expected: false });
+            conns.push(MConn { id: c.id, node: c.node, ord: *o, alive: true, hs_parked: None, use_parked: None, pooled: true, needs_sync: true, last_use_seen: None, acked: None, nak: None, retiring: false, accept_parked: None, hs_expected: false, dropped: None });
             *o += 1;
         }
         let mut w = World {
@@ -290,6 +306,7 @@ impl World {
             kills_left: cfg.kills,
             adds_left: cfg.adds,
             naks_left: cfg.naks,
+            drops_left: cfg.drops,
             reqs: Vec::new(),
             next_req: 0,
             stats: RunStats::default(),
@@ -358,6 +375,9 @@ impl World {
                     if let Some(other) = self.cluster.held().iter().find(|a| a.conn == id && a.is_use_response() && a.statement() != Some(want.as_str())) {
                         return Err(stuck(format!("connection {} was sent {:?} where the model expects {want:?}", self.conns[i].name(), other.statement().unwrap_or(""))));
                     }
+                    if self.conns[i].pooled && !self.cfg.repeat(k) && self.flags[k].load(Ordering::SeqCst) != 0 {
+                        return Err(stuck(format!("the call returned although {want:?} was never sent on pool connection {}", self.conns[i].name())));
+                    }
                     if self.conns[i].pooled && self.cfg.repeat(k) && self.flags[k].load(Ordering::SeqCst) != 0 {
                         // a repeated request for the same keyspace returned without a new USE round on this
                         // connection: allowed by the property (the oracle decides whether it was right to)
@@ -392,7 +412,7 @@ impl World {
                 .await
                 .map_err(stuck)?;
             let ord = self.conns.iter().filter(|c| c.node == node).count();
-            self.conns.push(MConn { id: a.conn, node, ord, alive: true, hs_parked: None, use_parked: None, pooled: false, needs_sync: false, last_use_seen: None, acked: None, nak: None, retiring: false, accept_parked: Some(a.id), hs_expected: false });
+            self.conns.push(MConn { id: a.conn, node, ord, alive: true, hs_parked: None, use_parked: None, pooled: false, needs_sync: false, last_use_seen: None, acked: None, nak: None, retiring: false, accept_parked: Some(a.id), hs_expected: false, dropped: None });
             return Ok(());
         }
         let a = self
@@ -401,7 +421,7 @@ impl World {
             .await
             .map_err(stuck)?;
         let ord = self.conns.iter().filter(|c| c.node == node).count();
-        self.conns.push(MConn { id: a.conn, node, ord, alive: true, hs_parked: Some(a.id), use_parked: None, pooled: false, needs_sync: false, last_use_seen: None, acked: None, nak: None, retiring: false, accept_parked: None, hs_expected: false });
+        self.conns.push(MConn { id: a.conn, node, ord, alive: true, hs_parked: Some(a.id), use_parked: None, pooled: false, needs_sync: false, last_use_seen: None, acked: None, nak: None, retiring: false, accept_parked: None, hs_expected: false, dropped: None });
         Ok(())
     }
 
@@ -509,7 +529,7 @@ impl World {
             if let Some((k, _)) = &self.inflight {
                 let k = *k;
                 let returned_early = self.cfg.repeat(k) && self.flags[k].load(Ordering::SeqCst) != 0 && self.snapshot.iter().all(|&i| !self.conns[i].alive || self.conns[i].use_parked.is_none());
-                if returned_early || self.snapshot.iter().all(|&i| !self.conns[i].alive || self.conns[i].acked == Some(k) || self.conns[i].nak == Some(k)) {
+                if returned_early || self.snapshot.iter().all(|&i| !self.conns[i].alive || self.conns[i].acked == Some(k) || self.conns[i].nak == Some(k) || self.conns[i].dropped == Some(k)) {
                     let (_, h) = self.inflight.take().unwrap();
                     let ok = tokio::time::timeout(mockcluster::DEADLINE, h)
                         .await
@@ -536,7 +556,7 @@ impl World {
     fn state_string(&self) -> String {
         let mut s = format!("raw={}{} pend={:?} cur={:?} infl={:?} started={} k={} a={} n={};", self.raw_wait.is_some() as u8, self.raw_parked.is_some() as u8, self.pending.as_ref().map(|x| x.0), self.current, self.inflight.as_ref().map(|x| x.0), self.started, self.kills_left, self.adds_left, self.naks_left);
         for c in &self.conns {
-            s.push_str(&format!("{}:{}{}{}{}{}{:?}{:?}{:?};", c.name(), c.accept_parked.is_some() as u8, c.retiring as u8, c.alive as u8, c.hs_parked.is_some() as u8, c.pooled as u8, c.use_parked.map(|u| u.1), c.acked, c.nak));
+            s.push_str(&format!("{}:{}{}{}{}{}{:?}{:?}{:?}{:?};", c.name(), c.accept_parked.is_some() as u8, c.retiring as u8, c.alive as u8, c.hs_parked.is_some() as u8, c.pooled as u8, c.use_parked.map(|u| u.1), c.acked, c.nak, c.dropped));
         }
         s
     }
@@ -591,6 +611,14 @@ impl World {
             }
             if topo_ok && !topo_is_default {
                 v.push(self.cfg.topo_name().to_string());
+            }
+            if self.drops_left > 0 {
+                for &i in &order {
+                    let c = &self.conns[i];
+                    if c.alive && c.pooled && c.use_parked.is_some() {
+                        v.push(format!("drop:{}", c.name()));
+                    }
+                }
             }
             if self.refusals_left > 0 {
                 for &i in &order {
@@ -716,6 +744,12 @@ impl World {
                 self.conns[i].pooled = true;
                 self.conns[i].needs_sync = true;
             }
+        } else if let Some(name) = action.strip_prefix("drop:") {
+            let i = self.conn_by_name(name);
+            self.drops_left -= 1;
+            let (id, k) = self.conns[i].use_parked.take().unwrap();
+            self.cluster.discard(id);
+            self.conns[i].dropped = Some(k);
         } else if let Some(name) = action.strip_prefix("nak:") {
             let i = self.conn_by_name(name);
             self.naks_left -= 1;
@@ -904,6 +938,28 @@ fn run_blocking(cfg: Cfg, ch: &mut Chooser) -> Result<RunStats, Fail> {
     r
 }
 
+/// Load balancing over ALL nodes the driver knows (round robin), including nodes that own no tokens: the default policy
+/// only ever plans over the token ring.
+#[derive(Debug, Default)]
+struct AllNodes {
+    next: std::sync::atomic::AtomicUsize,
+}
+impl scylla::policies::load_balancing::LoadBalancingPolicy for AllNodes {
+    fn pick<'a>(&'a self, _r: &'a scylla::policies::load_balancing::RoutingInfo, cluster: &'a scylla::cluster::ClusterState) -> Option<(scylla::cluster::NodeRef<'a>, Option<scylla::routing::Shard>)> {
+        let nodes = cluster.get_nodes_info();
+        if nodes.is_empty() {
+            return None;
+        }
+        Some((&nodes[self.next.fetch_add(1, Ordering::Relaxed) % nodes.len()], None))
+    }
+    fn fallback<'a>(&'a self, _r: &'a scylla::policies::load_balancing::RoutingInfo, cluster: &'a scylla::cluster::ClusterState) -> scylla::policies::load_balancing::FallbackPlan<'a> {
+        Box::new(cluster.get_nodes_info().iter().map(|n| (n, None)))
+    }
+    fn name(&self) -> String {
+        "AllNodes".into()
+    }
+}
+
 /// Host filter that rejects one host until the harness opens it.
 struct FlipFilter {
     host: uuid::Uuid,
@@ -946,29 +1002,32 @@ fn main() {
             // error answers (nak): in the single-connection pools (and the sharded configuration of the thorough tier)
             // the largest configuration (pools of 2, two calls) goes without the joining node (covered by the other three)
             let adds = if pool == 2 && calls == 2 { 0 } else { 1 };
-            cfgs.push(Cfg { pool, calls, sharded: false, variant: 0, topo: 0, kills: 1, adds, naks: if pool == 1 { 1 } else { 0 }, max_steps: 14 });
+            cfgs.push(Cfg { pool, calls, sharded: false, variant: 0, topo: 0, kills: 1, adds, naks: if pool == 1 { 1 } else { 0 }, drops: 0, zero_token: false, max_steps: 14 });
         }
     }
     // the same name twice (first round may fail with error answers on some or all connections), and the same name
     // with the other case-sensitivity flag
-    cfgs.insert(1, Cfg { pool: 1, calls: 2, sharded: false, variant: 1, topo: 0, kills: 1, adds: 1, naks: 2, max_steps: 14 });
-    cfgs.push(Cfg { pool: 1, calls: 2, sharded: false, variant: 2, topo: 0, kills: 1, adds: 1, naks: if thorough { 1 } else { 0 }, max_steps: 14 });
+    cfgs.insert(1, Cfg { pool: 1, calls: 2, sharded: false, variant: 1, topo: 0, kills: 1, adds: 1, naks: 2, drops: 0, zero_token: false, max_steps: 14 });
+    cfgs.push(Cfg { pool: 1, calls: 2, sharded: false, variant: 2, topo: 0, kills: 1, adds: 1, naks: if thorough { 1 } else { 0 }, drops: 0, zero_token: false, max_steps: 14 });
     // mixed-case / lower-case twin keyspaces, set through raw `USE` statements and through the API
-    cfgs.insert(2, Cfg { pool: 1, calls: 2, sharded: false, variant: 3, topo: 0, kills: 1, adds: 1, naks: 0, max_steps: 14 });
-    cfgs.push(Cfg { pool: 1, calls: 2, sharded: false, variant: 4, topo: 0, kills: 1, adds: 1, naks: 0, max_steps: 14 });
+    cfgs.insert(2, Cfg { pool: 1, calls: 2, sharded: false, variant: 3, topo: 0, kills: 1, adds: 1, naks: 0, drops: 0, zero_token: false, max_steps: 14 });
+    cfgs.push(Cfg { pool: 1, calls: 2, sharded: false, variant: 4, topo: 0, kills: 1, adds: 1, naks: 0, drops: 0, zero_token: false, max_steps: 14 });
     // node histories: down at USE time and back later; accepted by the host filter later; re-created after a rack change
     for topo in [1u8, 2, 3] {
-        cfgs.push(Cfg { pool: 1, calls: 2, sharded: false, variant: 0, topo, kills: if thorough { 1 } else { 0 }, adds: 1, naks: 0, max_steps: 14 });
+        cfgs.push(Cfg { pool: 1, calls: 2, sharded: false, variant: 0, topo, kills: if thorough { 1 } else { 0 }, adds: 1, naks: 0, drops: 0, zero_token: false, max_steps: 14 });
     }
+    // a coordinator-only (zero-token) node among the pools; a USE that is never answered on one of two pool connections
+    cfgs.push(Cfg { pool: 1, calls: 2, sharded: false, variant: 0, topo: 0, kills: 1, adds: 0, naks: 0, drops: 0, zero_token: true, max_steps: 14 });
+    cfgs.push(Cfg { pool: 2, calls: if thorough { 2 } else { 1 }, sharded: false, variant: 0, topo: 0, kills: 0, adds: 0, naks: 0, drops: 1, zero_token: false, max_steps: 14 });
     // per-shard pool on a 2-shard node (shard-aware port)
-    cfgs.push(Cfg { pool: 1, calls: 1, sharded: true, variant: 0, topo: 0, kills: 1, adds: 0, naks: 0, max_steps: 14 });
+    cfgs.push(Cfg { pool: 1, calls: 1, sharded: true, variant: 0, topo: 0, kills: 1, adds: 0, naks: 0, drops: 0, zero_token: false, max_steps: 14 });
     if thorough {
-        cfgs.push(Cfg { pool: 1, calls: 2, sharded: false, variant: 5, topo: 0, kills: 1, adds: 1, naks: 1, max_steps: 14 });
-        cfgs.push(Cfg { pool: 1, calls: 2, sharded: false, variant: 6, topo: 0, kills: 1, adds: 1, naks: 1, max_steps: 14 });
-        cfgs.push(Cfg { pool: 2, calls: 2, sharded: false, variant: 3, topo: 0, kills: 1, adds: 0, naks: 0, max_steps: 14 });
-        cfgs.push(Cfg { pool: 2, calls: 2, sharded: false, variant: 1, topo: 0, kills: 1, adds: 0, naks: 2, max_steps: 14 });
-        cfgs.push(Cfg { pool: 1, calls: 2, sharded: true, variant: 0, topo: 0, kills: 1, adds: 1, naks: 0, max_steps: 14 });
-        cfgs.push(Cfg { pool: 1, calls: 2, sharded: false, variant: 0, topo: 0, kills: 2, adds: 1, naks: 0, max_steps: 16 });
+        cfgs.push(Cfg { pool: 1, calls: 2, sharded: false, variant: 5, topo: 0, kills: 1, adds: 1, naks: 1, drops: 0, zero_token: false, max_steps: 14 });
+        cfgs.push(Cfg { pool: 1, calls: 2, sharded: false, variant: 6, topo: 0, kills: 1, adds: 1, naks: 1, drops: 0, zero_token: false, max_steps: 14 });
+        cfgs.push(Cfg { pool: 2, calls: 2, sharded: false, variant: 3, topo: 0, kills: 1, adds: 0, naks: 0, drops: 0, zero_token: false, max_steps: 14 });
+        cfgs.push(Cfg { pool: 2, calls: 2, sharded: false, variant: 1, topo: 0, kills: 1, adds: 0, naks: 2, drops: 0, zero_token: false, max_steps: 14 });
+        cfgs.push(Cfg { pool: 1, calls: 2, sharded: true, variant: 0, topo: 0, kills: 1, adds: 1, naks: 0, drops: 0, zero_token: false, max_steps: 14 });
+        cfgs.push(Cfg { pool: 1, calls: 2, sharded: false, variant: 0, topo: 0, kills: 2, adds: 1, naks: 0, drops: 0, zero_token: false, max_steps: 16 });
     }
     if let Some(only) = r.args.extra_value("--only-cfg").and_then(|s| s.parse::<usize>().ok()) {
         cfgs = vec![cfgs[only]];
@@ -1074,7 +1133,7 @@ fn main() {
         println!("cfg {} bound {} -> {} executions, longest {} choice points, {} violations", cfg.json(), bound, res.executions, res.max_points, res.violations.len());
       }
     };
-    let (lane_b, lane_a): (Vec<Cfg>, Vec<Cfg>) = cfgs.iter().partition(|c| c.topo != 0 || c.sharded || c.kills > 1 || c.variant >= 5);
+    let (lane_b, lane_a): (Vec<Cfg>, Vec<Cfg>) = cfgs.iter().partition(|c| c.topo != 0 || c.sharded || c.kills > 1 || c.variant >= 5 || c.drops > 0 || c.zero_token);
     let jobs = r.args.jobs.min(16);
     std::thread::scope(|s| {
         s.spawn(|| run_lane(&lane_b, if thorough { 10 } else { 6 }));
